@@ -277,14 +277,18 @@ func c14RacePass(c *Ctx) (ran bool, out string, err error) {
 		args = append(args, strings.Fields(r)...)
 	}
 	_ = os.MkdirAll(filepath.Join(work, "noshim"), 0o755)
+	engineDir := os.Getenv("VERIF_ENGINE")
+	if engineDir == "" {
+		engineDir = filepath.Join(ev.Root, "engine")
+	}
 	mk := exec.Command("go", args...)
-	mk.Dir = filepath.Join(ev.Root, "engine")
+	mk.Dir = engineDir
 	if b, e := mk.CombinedOutput(); e != nil {
 		return false, string(b), fmt.Errorf("mkoverlay -noshim: %v", e)
 	}
 	_ = os.Rename(filepath.Join(work, "noshim", "overlay.json"), ovl)
 	build := exec.Command("go", "build", "-race", "-tags", "verif", "-overlay", ovl, "-o", bin, "./cmd/racepass")
-	build.Dir = filepath.Join(ev.Root, "engine")
+	build.Dir = engineDir
 	if b, e := build.CombinedOutput(); e != nil {
 		return false, string(b), fmt.Errorf("build racepass: %v", e)
 	}
